@@ -20,6 +20,7 @@ RULE = ('forward of every tensor op on operand ranks 0-5 over the whole argument
 EXHAUSTIVE = {'quick': False, 'thorough': False}
 ASSUMPTIONS = ['float64 values except in the dtype-specific cases; rel 1e-9']
 TRUSTED_BASE = ['harness/tprog.py, harness/gen_ops.py']
+TRUSTED_BASE = TRUSTED_BASE + ['harness/array_formulas.py + lean/SynapModel/NpCalls.lean (reading of the array kernels as compositions of NumPy calls, Generated/KernelCalls.lean; what each NumPy function does is the hand-written array model)']
 
 
 def op_case(rng, op):
